@@ -30,6 +30,10 @@ BASE = dict(NC=1, UseRetry="FALSE", MaxPing=0, MaxWC=0, MaxWClosed=0, NChunk=0, 
             MaxRebind=0, MaxFault=1, ServerApp="FALSE", Late="TRUE", Fixed="TRUE")
 
 
+# several TLC processes run side by side: keep each JVM's helper threads few
+JVM_ENV = {"JAVA_TOOL_OPTIONS": "-XX:ParallelGCThreads=2 -XX:CICompilerCount=2"}
+
+
 def consts(**kw):
     d = dict(BASE)
     d.update(kw)
@@ -140,25 +144,32 @@ def scenario_from_behaviour(states, sid, nc):
 
 
 def tlc_scenarios(check, n, depth):
+    """Ask TLC (simulation mode, retry off and on side by side) for behaviours of Asyncio and turn each
+    into a scenario.  Runs in a helper thread: returns the TLC results for the caller's bookkeeping."""
+    from concurrent.futures import ThreadPoolExecutor
+    from .. import tlc
+    from ..tlaparse import parse_behaviour_file
     d = os.path.join(check.work, "sim")
-    os.makedirs(d, exist_ok=True)
-    out = []
-    for retry in ("FALSE", "TRUE"):
+
+    def one(retry):
         sub = os.path.join(d, retry)
         os.makedirs(sub, exist_ok=True)
         cfg = "SPECIFICATION Spec\n" + consts(**dict(SIM, UseRetry=retry)) + "INVARIANTS " + INVARIANTS + "\n"
-        r = check.run_tlc("Asyncio", cfg, name="Asyncio_sim_retry" + retry, workers=1,
-                          simulate="file=%s/b,num=%d" % (sub, n // 2), depth=depth, seed=check.seed)
-        if r.violated:
-            check.model_violation(r, "Asyncio(simulate)")
-        from ..tlaparse import parse_behaviour_file
+        r = tlc.run("Asyncio", cfg, os.path.join(check.work, "tlc"), name="Asyncio_sim_retry" + retry, workers=1,
+                    simulate="file=%s/b,num=%d" % (sub, n // 2), depth=depth, seed=check.seed, env=JVM_ENV)
+        return retry, sub, r
+    with ThreadPoolExecutor(2) as ex:
+        res = list(ex.map(one, ("FALSE", "TRUE")))
+    out, runs = [], []
+    for retry, sub, r in res:
+        runs.append(("Asyncio_sim_retry" + retry, r))
         for f in sorted(os.listdir(sub)):
             sc = scenario_from_behaviour(parse_behaviour_file(os.path.join(sub, f)), 0, SIM["NC"])
             if sc is not None:
                 sc["retry"] = retry == "TRUE"
                 sc["net"]["attack"] = sc["retry"]
                 out.append(sc)
-    return out
+    return runs, out
 
 
 # ------------------------------------------------------------------ (V) running
@@ -238,8 +249,9 @@ def judge(check, results, name):
         for j, e in enumerate(ls):
             lines.append(e)
             owner.append((ri, j))
+    # ~8000 lines per TLC process: below that the JVM start dominates the cost of a shard
     fails = trace.validate(check, "TraceAsyncio", lines, constants=consts(), name=name,
-                           group_key=lambda e: e["op"] == "init")
+                           shards=max(1, min(16, len(lines) // 8000)), group_key=lambda e: e["op"] == "init")
     check.cov["traces_validated_against_impl"] += len(results)
     for i, clause in fails:
         ri, j = owner[i]
@@ -355,15 +367,31 @@ def run(check):
     pool = ctx.Pool(procs)
     try:
         pending = [pool.map_async(_work, cut(scenarios))]
-        # (R) scenario structures from TLC behaviours
-        derived = tlc_scenarios(check, 80 if check.quick else 600, 45)
-        for k, sc in enumerate(derived):
-            sc["id"] = n_random + k
-        check.cov["tlc_behaviours_replayed"] = len(derived)
-        pending.append(pool.map_async(_work, cut(derived)))
-        # (M)
-        for name, kw in (M_QUICK if check.quick else M_THOROUGH):
-            r = check.run_tlc("Asyncio", model_cfg(**kw), name="Asyncio_M_" + name, workers=8, timeout=3000)
+        from concurrent.futures import ThreadPoolExecutor
+
+        # (R) scenario structures from TLC behaviours: asked for in a helper thread, handed to the
+        # process pool as soon as they exist, while the exhaustive configurations run
+        def derive():
+            runs, derived = tlc_scenarios(check, 80 if check.quick else 600, 45)
+            for k, sc in enumerate(derived):
+                sc["id"] = n_random + k
+            return runs, derived, pool.map_async(_work, cut(derived))
+        helper = ThreadPoolExecutor(1)
+        derive_job = helper.submit(derive)
+        # (M) the exhaustive configurations run side by side (the wall time is the longest, not the sum)
+        from .. import tlc
+        configs = M_QUICK if check.quick else M_THOROUGH
+
+        def one(item):
+            name, kw = item
+            return name, tlc.run("Asyncio", model_cfg(**kw), os.path.join(check.work, "tlc"),
+                                 name="Asyncio_M_" + name, workers=4, timeout=3000, env=JVM_ENV)
+        with ThreadPoolExecutor(len(configs) if check.quick else 3) as ex:
+            model_runs = list(ex.map(one, configs))
+        for name, r in model_runs:          # the bookkeeping of Check.run_tlc, done in this thread
+            check.cov["states"] += r.distinct
+            check.cov["transitions"] += r.generated
+            check.cov["tlc_runs"].append(dict(r.summary(), module="Asyncio", name="Asyncio_M_" + name))
             if r.violated:
                 check.model_violation(r, "Asyncio[%s]" % name)
         if not check.quick:
@@ -373,6 +401,14 @@ def run(check):
             check.cov["deviation_DevLateWaiter_counterexample"] = r.violated
             if r.violated != "NoPendingFinal":
                 raise MachineryError("the model of the unfixed late-waiter behaviour should violate NoPendingFinal, got %s" % r.violated)
+        sim_runs, derived, job = derive_job.result()
+        helper.shutdown()
+        for name, r in sim_runs:
+            check.cov["tlc_runs"].append(dict(r.summary(), module="Asyncio", name=name))
+            if r.violated:
+                check.model_violation(r, "Asyncio(simulate)")
+        check.cov["tlc_behaviours_replayed"] = len(derived)
+        pending.append(job)
         results = [x for p in pending for b in p.get(timeout=3000) for x in b]
     finally:
         pool.terminate()
